@@ -2,6 +2,7 @@ package h
 
 import (
 	"fmt"
+	"strconv"
 	"strings"
 	"sync"
 	"time"
@@ -828,6 +829,7 @@ func (v *View) checkC18Convergence(res *Result) {
 	bound := 500*time.Millisecond + v.Spec.Watch.DelayMax + 8*v.maxLeg() + time.Millisecond
 	type st struct {
 		lastChange time.Duration
+		changeRev  uint64 // revision of the write that gave the record its present owner
 		owner      string
 		live       bool
 	}
@@ -851,6 +853,7 @@ func (v *View) checkC18Convergence(res *Result) {
 			case "Create", "Update", "Put":
 				if !s.live || s.owner != nid {
 					s.lastChange = m.VT
+					s.changeRev = m.Rev
 				}
 				s.owner, s.live = nid, true
 				if m.By == "outside" {
@@ -905,7 +908,24 @@ func (v *View) checkC18Convergence(res *Result) {
 			}
 			res.Obs["c18.follower_convergence_checks"]++
 			if sn.LeaderID != s.owner {
-				res.viol("C18", "follower-leaderid", "follower-leaderid-stale", fmt.Sprintf("follower %s LeaderID=%q but live record owner %q since %v (now %v)", e.Inst, sn.LeaderID, s.owner, s.lastChange, e.VT), idx)
+				// discriminator: what the follower was told LAST was a watch notification OLDER than
+				// the write that gave the record its present owner ("leader_changed" with a lower
+				// revision) - its watch handling lags behind and has put an old owner back over what
+				// a later read had shown
+				sig := "follower-leaderid-stale"
+				for j := idx - 1; j >= 0; j-- {
+					p := v.Ev[j]
+					if p.Kind != "log" || p.Inst != e.Inst || (p.Msg != "leader_changed" && p.Msg != "leader_changed_periodic_check") {
+						continue
+					}
+					if p.Msg == "leader_changed" {
+						if r, err := strconv.ParseUint(p.Fields["revision"], 10, 64); err == nil && r < s.changeRev && p.Fields["new_leader_id"] == sn.LeaderID {
+							sig = "follower-leaderid-stale:older-watch-event-applied-last"
+						}
+					}
+					break
+				}
+				res.viol("C18", "follower-leaderid", sig, fmt.Sprintf("follower %s LeaderID=%q but live record owner %q since %v (now %v)", e.Inst, sn.LeaderID, s.owner, s.lastChange, e.VT), idx)
 			}
 		}
 	}
